@@ -1,3 +1,4 @@
 //! Shared generators (proptest strategies).
+pub mod faults;
 pub mod payload;
 pub mod stream;
